@@ -485,7 +485,8 @@ def build_av(sm: SourceModel, f: Func):
                     emissions.append((lhs, rhs, None))
                     stores.append((idx_t, rhs, None, len(emissions) - 1))
                 else:
-                    emissions.append((term(lhs_v), rhs, None))
+                    # a definition of a new name: the C backend declares it only when the variable prefix is requested
+                    emissions.append((term(lhs_v), rhs, {"prefixed": dict(val[3]).get("use_variable_prefix") == av.C(True)}))
             except Exception as e:  # a printed value that has no term form
                 notes.append(f"value not understood: {e}")
         lits = frozenset((names[a], pol) for a, pol in assign)
